@@ -847,6 +847,7 @@ func (f *c25sFamily) run(r *vkit.Run, srv *e2e.Server, replay *c25sCase) {
 			}
 		}
 	}
+	var samples []interface{}
 	for _, c := range cases {
 		o := obs[c.ID]
 		key := fmt.Sprintf("stream|%s|%s|%s|%s|%s|%v|%v", c.Frontend, c.Framing, c.Stage, c.Abort, c.Early, c.Blen >= 4000, c.RespBody > 0)
@@ -890,11 +891,13 @@ func (f *c25sFamily) run(r *vkit.Run, srv *e2e.Server, replay *c25sCase) {
 			r.Count("stream_followup_status_"+st, 1)
 		}
 		r.Count("stream_upload_saw_"+c.Frontend+"_"+c.Abort+"_"+o.Upload, 1)
-		if shape && c.N%37 == 0 && r.WantSample() {
-			r.Sample(map[string]interface{}{"stream_case": c, "observed": o})
+		if shape && c.N%37 == 0 && len(samples) < 4 {
+			// own evidence key: the sample budget of vkit is used up by the other families
+			samples = append(samples, map[string]interface{}{"stream_case": c, "observed": o})
 		}
 	}
 	if replay == nil {
+		r.Extra("stream_samples", samples)
 		for _, fe := range []string{"h1", "h2"} {
 			if r.Counter("stream_shape_early_reply_then_abort_then_followup_forwarded_"+fe) == 0 {
 				r.Inconclusive("stream family: on frontend " + fe + " no upload was aborted after bfe had the backend's early reply and followed by a forwarded request")
